@@ -226,14 +226,23 @@ def factory_rules(ctx, R, PR):
                         cn = cfg.node_containing(c)
                         if hn and cn and all(cfg.dominates(hn, x, exc=False) for x in cn):
                             ok = True
-            if not ok and atype is TOP:
-                # generic action argument: the derivation sits on the tag branch that set atype = "tag"
-                if helper is not None and any(isinstance(hc, ast.Call) and call_name(hc) == helper.name and norm(hc.args[1]) == norm(tagexpr)
-                                              for hc in walk_no_nested(f.node)):
-                    tagsets = [a for a in walk_no_nested(f.node) if isinstance(a, ast.Assign) and norm(a.targets[0]) == norm(c.args[0])
-                               and const_value(prog, f, a.value) == "tag"]
-                    ok = bool(tagsets) and all(any(isinstance(s2, ast.Expr) and isinstance(s2.value, ast.Call) and call_name(s2.value) == helper.name
-                                                   for s2 in a._parent.body) for a in tagsets)
+            if not ok and atype is TOP and helper is not None:
+                # generic action argument: the derivation sits on the tag branch that set atype = "tag"; the tag itself may travel
+                # through a second local (`value = arg`) set on the same branch
+                tagsets = [a for a in walk_no_nested(f.node) if isinstance(a, ast.Assign) and norm(a.targets[0]) == norm(c.args[0])
+                           and const_value(prog, f, a.value) == "tag"]
+
+                def derived_on_branch(a):
+                    blk = getattr(a._parent, "body", [])
+                    if a not in blk:
+                        blk = getattr(a._parent, "orelse", [])
+                    names = {norm(tagexpr)}
+                    for s2 in blk:
+                        if isinstance(s2, ast.Assign) and norm(s2.targets[0]) == norm(tagexpr):
+                            names.add(norm(s2.value))
+                    return any(isinstance(s2, ast.Expr) and isinstance(s2.value, ast.Call) and call_name(s2.value) == helper.name
+                               and len(s2.value.args) == 2 and norm(s2.value.args[1]) in names for s2 in blk)
+                ok = bool(tagsets) and all(derived_on_branch(a) for a in tagsets)
             if ok:
                 ctx.holds("F4", label, "derivation precedes the unchecked argument")
             else:
@@ -248,11 +257,9 @@ def factory_rules(ctx, R, PR):
     ctx.rule("F5b", "every quoting wrapper escapes backslash before double quote")
     qh = R.quote
     escaped = f5_helper(ctx, R)
-    esc_funcs = {n for n, f in R.m.items() if is_escaper(prog, f)}
+    esc_funcs = {n for n, f in R.helpers.items() if is_escaper(prog, f)}
     n5 = 0
-    for f in (R.create, R.build_condition):
-        if f is None:
-            continue
+    for f in R.builders():
         for c in walk_no_nested(f.node):
             if not (isinstance(c, ast.Call) and call_name(c) == "check_next_arg" and len(c.args) >= 2):
                 continue
@@ -361,7 +368,8 @@ def replace_chain_ok(prog, e):
 
 def is_escaper(prog, f):
     rets = [r.value for r in walk_no_nested(f.node) if isinstance(r, ast.Return) and r.value is not None]
-    return len(rets) == 1 and isinstance(rets[0], ast.Call) and replace_chain_ok(prog, rets[0]) and len(f.params) == 2
+    own = [p_ for p_ in f.params if not (f.cls is not None and "staticmethod" not in f.decorators and p_ == f.params[0])]
+    return len(rets) == 1 and isinstance(rets[0], ast.Call) and replace_chain_ok(prog, rets[0]) and len(own) == 1
 
 
 def const_of(e):
@@ -396,10 +404,10 @@ def _local_def(at, name):
     return None
 
 
-def classify_value(prog, qh, esc_funcs, d):
+def classify_value(prog, qh, esc_funcs, d, depth=0):
     """('ok', why) / ('unescaped', why) / ('bad', why)"""
     def esc(e):
-        return (isinstance(e, ast.Call) and isinstance(e.func, ast.Attribute) and e.func.attr in esc_funcs) or (
+        return (isinstance(e, ast.Call) and call_name(e) in esc_funcs) or (
             isinstance(e, ast.Call) and replace_chain_ok(prog, e))
     if isinstance(d, ast.Call) and call_name(d) == qh.name:
         return ("ok", "quoting helper")
@@ -414,15 +422,33 @@ def classify_value(prog, qh, esc_funcs, d):
         if isinstance(src, ast.Name):
             src = _local_def(d, src.id) or src
         comp = None
-        if isinstance(src, ast.Call) and isinstance(src.func, ast.Attribute) and src.func.attr == "join" and const_of(src.func.value) == "," and src.args \
-                and isinstance(src.args[0], (ast.ListComp, ast.GeneratorExp)):
-            comp = src.args[0]
+        if isinstance(src, ast.Call) and isinstance(src.func, ast.Attribute) and src.func.attr == "join" and const_of(src.func.value) == "," and src.args:
+            a0 = src.args[0]
+            if isinstance(a0, ast.Name):
+                a0 = _local_def(src, a0.id) or a0
+            if isinstance(a0, (ast.ListComp, ast.GeneratorExp)):
+                comp = a0
         if comp is not None:
             inner = _wrapped(comp.elt, '"\0"')
             if inner is not None and esc(inner):
                 return ("ok", "inline list wrapper with escaping")
             if inner is not None:
                 return ("unescaped", "inline list wrapper")
+    # a helper of the factory (or of its module) whose every result is itself a recognised quoting of its argument
+    if isinstance(d, ast.Call) and depth < 2:
+        nm = call_name(d)
+        g = None
+        if qh.cls is not None and isinstance(d.func, ast.Attribute):
+            g = qh.cls.methods.get(nm) or next((m for k, m in qh.cls.methods.items() if k.lstrip("_") == (nm or "").lstrip("_")), None)
+        elif isinstance(d.func, ast.Name):
+            g = qh.module.funcs.get(nm)
+        if g is not None and g is not qh:
+            rets = [r.value for r in walk_no_nested(g.node) if isinstance(r, ast.Return) and r.value is not None]
+            vs = [classify_value(prog, qh, esc_funcs, r, depth + 1) for r in rets]
+            if rets and all(v[0] == "ok" for v in vs):
+                return ("ok", "helper %s: %s" % (g.qualname, vs[0][1]))
+            if rets and all(v[0] in ("ok", "unescaped") for v in vs):
+                return ("unescaped", "helper %s" % g.qualname)
     return ("bad", "no quoting recognised")
 
 
@@ -432,11 +458,11 @@ def f5_helper(ctx, R):
     ctx.rule("F5a", "user values reaching string / string-list arguments are quoted by the factory")
     ctx.rule("F5b", "every quoting wrapper escapes backslash before double quote")
     qh = R.quote
-    esc_funcs = {n for n, f in R.m.items() if is_escaper(prog, f)}
+    esc_funcs = {n for n, f in R.helpers.items() if is_escaper(prog, f)}
 
     def escaped(e):
         """e applies a recognised escaper to its operand"""
-        if isinstance(e, ast.Call) and isinstance(e.func, ast.Attribute) and e.func.attr in esc_funcs:
+        if isinstance(e, ast.Call) and call_name(e) in esc_funcs:
             return True
         if isinstance(e, ast.Call) and replace_chain_ok(prog, e):
             return True
@@ -456,7 +482,8 @@ def f5_helper(ctx, R):
             ctx.violation("F5b", qh, "helper-unescaped", "the quoting helper wraps the value in quotes without escaping `\\` and `\"`: %s" % norm(b), node=b,
                           witness="fileinto 'x\"; discard; #' renders a script with an extra discard command")
     # the only values the helper may hand back unquoted are those that start with a quote character (documented exemption)
-    qp = qh.params[1] if len(qh.params) > 1 else None
+    own_q = [p_ for p_ in qh.params if not (qh.cls is not None and "staticmethod" not in qh.decorators and p_ == qh.params[0])]
+    qp = own_q[0] if own_q else None
     qcfg = ctx.cfg(qh)
 
     def starts_quoted(fc):
